@@ -284,7 +284,6 @@ bool set_full_hash_type(zckCtx *zck, int hash_type) {
 bool set_chunk_hash_type(zckCtx *zck, int hash_type) {
     VALIDATE_BOOL(zck);
 
-    memset(&(zck->chunk_hash_type), 0, sizeof(zckHashType));
     zck_log(ZCK_LOG_DEBUG, "Setting chunk hash to %s",
             zck_hash_name_from_type(hash_type));
     if(!hash_setup(zck, &(zck->chunk_hash_type), hash_type)) {
